@@ -881,6 +881,10 @@ pub fn run(ctx: &Ctx, rep: &mut Report, prop: &str) {
     if prop == "c03" && ctx.only_case.is_none() && !ctx.is_miri() {
         c03_header_sweep(ctx, rep);
     }
+    if matches!(prop, "c01" | "c02" | "c03" | "c04") {
+        // these properties speak of "the response" a client gets, whatever the entry point
+        crate::props::io::mini(ctx, rep, prop);
+    }
     let (quick, thorough, per_scenario) = match prop {
         "c01" => (40_000u64, 400_000u64, 40usize),
         "c02" => (160_000, 640_000, 40),
